@@ -226,7 +226,7 @@ def check_history(fx, slog, clients, rec, pay):
                     rec.inconc("call failed unexpectedly: %r" % (r["outcome"],))
                     continue
                 if len(snaps) != 1:
-                    rec.violation("method-ran-wrong-number-of-times", "token %s recorded %d context snapshots" % (tk, len(snaps)), pay)
+                    rec.violation("method-ran-wrong-number-of-times", "client %d op %s token %s recorded %d context snapshots: %r" % (cl.cid, r["op"], tk, len(snaps), snaps), pay)
                     return False
                 s = snaps[0]
                 exp_flags = F.FLAGS_CORR_ID | (F.FLAGS_ONEWAY if r["op"] == "ow" else 0) | (F.FLAGS_BATCH if r["op"].startswith("batch") else 0)
@@ -261,6 +261,7 @@ def run_history(fx, slog, rec, r, sername, nclients, nops):
         ops = [(r.choice(OPS), r.choice(["rebind", "inplace"])) for _ in range(nops)]
         plans.append(ops)
     pay = {"plans": plans, "serializer": sername, "servertype": fx.servertype, "pool": fx.P.config.THREADPOOL_SIZE}
+    fx.wait_until(lambda: fx.live_connection_count() == 0, 10.0)      # workers of the previous history are back in the pool
     barrier = threading.Barrier(nclients)
     clients = [Client(fx, slog, c, plans[c], sername, barrier) for c in range(nclients)]
     for c in clients:
